@@ -87,8 +87,14 @@ def _one(args):
                 return dict(e, status="not-applicable", detail=why)
         if e["kind"] in ("twin", "twinpatch"):
             res = {pid: _run_check(pid, d) for pid in e["pids"]}
-            noisy = {pid: r for pid, r in res.items() if r[0] != 0}
-            return dict(e, status="silent" if not noisy else "NOISY", detail={k: list(v) for k, v in noisy.items()})
+            # a refactoring recorded as "the analysis gives up here" (exit 2 at install time) may stay undecided; it must never
+            # be reported as a violation, and a property that was decided at install time must stay decided
+            known = set(e.get("undecided", ()))
+            noisy = {pid: r for pid, r in res.items() if r[0] == 1 or (r[0] != 0 and pid not in known)}
+            und = sorted(pid for pid, r in res.items() if r[0] == 2 and pid in known)
+            if noisy:
+                return dict(e, status="NOISY", detail={k: list(v) for k, v in noisy.items()})
+            return dict(e, status="silent" if not und else "silent-undecided", detail={"undecided": und})
         code, rules = _run_check(e["pid"], d)
         if e.get("rule") is None:
             return dict(e, status="silent" if code == 0 else "NOISY", detail={"exit": code, "rules": rules})
@@ -120,7 +126,12 @@ def entries_for(pid):
         for name in sorted(os.listdir(td)):
             patch = os.path.join(td, name, "patch.diff")
             if os.path.exists(patch):
-                out.append(dict(kind="twinpatch", pids=[pid] if pid else ["C%02d" % i for i in range(1, 18)], patch=patch, desc="twins/%s" % name, file="", func=""))
+                und = []
+                mp = os.path.join(td, name, "meta.json")
+                if os.path.exists(mp):
+                    und = json.load(open(mp)).get("undecided_at_install", [])
+                out.append(dict(kind="twinpatch", pids=[pid] if pid else ["C%02d" % i for i in range(1, 18)], patch=patch, desc="twins/%s" % name, file="", func="",
+                                undecided=und))
     return out
 
 
@@ -162,7 +173,7 @@ def main():
     results = run_entries(entries_for(pid), repo)
     bad = 0
     for r in results:
-        flag = "" if r["status"] in ("fired", "silent") else "  <<<<"
+        flag = "" if r["status"] in ("fired", "silent", "silent-undecided") else "  <<<<"
         if r["status"] in ("MISSED", "NOISY", "not-applicable", "fired-other-rule"):
             bad += r["status"] in ("MISSED", "NOISY")
         print("%-18s %-4s %-46s %s %s%s" % (r["status"], r.get("pid") or ",".join(r.get("pids", [])), (r.get("func") or "")[:46], r["desc"][:70],
